@@ -111,7 +111,8 @@ def replay_plan(prop, rp):
     jobs = []
     for job in rp.get("jobs") or [rp["job"]]:
         args = list(job["args"])
-        if "case" in rp:
+        if "case" in rp and not rp.get("whole"):
+            # (a C12 divergence may depend on the worlds that lived earlier in the same process: its replay reruns both whole jobs)
             args += ["-only", str(rp["case"])]
         # labels keep their form so that cross-process / cross-build comparisons work on replays too
         jobs.append(dict(cmd=job["cmd"], variant=job["variant"], args=args, label=job["label"], env=job.get("env", {}), watchdog=900))
